@@ -716,7 +716,7 @@ func corpusC19() []*Bundle {
 func init() {
 	register(&Property{
 		ID: "C19", Plain: true, Level: "fault_enumeration",
-		Rule:   "fixed corpus: a fault-injecting identity stub / RAISE / RAISE_WHEN / a wrongly-typed value in every synchronously evaluated clause position (WHERE, select list, function argument, CASE, HAVING, CTE body and chain, derived table, row-scoped subquery, IN subquery, EXISTS, union branch, join ON, arithmetic, DISTINCT/ORDER/LIMIT) x EVERY invocation index k = 1..N (N measured by a fault-free run) resp. every row j — exhaustive for the corpus; plus rapid-generated queries (1-4 fault sites) again exhaustive in k per query; each faulted run is [failing query, follow-up query, fault-free repeat] in one process; non-trivial = a fault actually fired; distinct = distinct case-file hash; the corpus also nests the failing call under each of 60 expression contexts (every arithmetic/bitwise/shift/comparison/logical operator on either side, BETWEEN point and bounds, IN/NOT IN value and element, IS, LIKE value and pattern, CASE condition/THEN/ELSE/second WHEN, IF arms, built-ins, tuple, SCOPED qualifier, argument of an ASYNC/SPINASYNC call) x {select list, derived table, row-scoped subquery, WHERE, HAVING} and a wrongly typed operand under every operator; statically failing queries whose failing step is certain to be evaluated (unknown function / unparsable selector in the select list, WHERE, HAVING, CTE, derived table, union branch, CASE arm, argument of a background call) must fail",
+		Rule:   "fixed corpus: a fault-injecting identity stub / RAISE / RAISE_WHEN / a wrongly-typed value in every synchronously evaluated clause position (WHERE, select list, function argument, CASE, HAVING, CTE body and chain, derived table, row-scoped subquery, IN subquery, EXISTS, union branch, join ON, arithmetic, DISTINCT/ORDER/LIMIT) x EVERY invocation index k = 1..N (N measured by a fault-free run) resp. every row j — exhaustive for the corpus; plus rapid-generated queries (1-4 fault sites) again exhaustive in k per query; each faulted run is [failing query, follow-up query, fault-free repeat] in one process; non-trivial = a fault actually fired; distinct = distinct case-file hash; the corpus also nests the failing call under each of 60 expression contexts (every arithmetic/bitwise/shift/comparison/logical operator on either side, BETWEEN point and bounds, IN/NOT IN value and element, IS, LIKE value and pattern, CASE condition/THEN/ELSE/second WHEN, IF arms, built-ins, tuple, SCOPED qualifier, argument of an ASYNC/SPINASYNC call) x {select list, derived table, row-scoped subquery, WHERE, HAVING} and a wrongly typed operand under every operator; statically failing queries whose failing step is certain to be evaluated (unknown function / unparsable selector in the select list, WHERE, HAVING, CTE, derived table, union branch, CASE arm, argument of a background call) must fail; after each injected failure Exec is called again on the same Query (no fault): fault-free rows, and a number of invocations between a second Exec after a success and a whole fresh evaluation; one run per site with a persistent fault (every invocation fails): a failed first Exec is followed by a failing second one; awaited calls beside the failing call and AWAIT in a join's ON among the shapes",
 		Corpus: corpusC19, Gen: genC19, Eval: evalC19, QuickChecks: 150,
 		Assumptions: []string{
 			"faults enter through the user-function seam (error return at the k-th call), RAISE/RAISE_WHEN and wrongly typed data; ASYNC/SPIN-qualified calls are excluded (the statement is about synchronous steps)",
